@@ -253,17 +253,7 @@ def failing_sentence(case):
 
 REFUTED = [
     # (text, block, parser, classifier?, classes) — the literal class lists of Properties/C12.v section 7
-    ("+f6:n 1", "data", "tally", False, ["FILE_PATH", ":", "PARTICLE", "SPACE", "NUMBER"]),
-    ("+f6:n", "data", "classifier", True, ["FILE_PATH", ":", "PARTICLE"]),
-    ("1 0 -1 imp:u=1", "cell", "cell", False,
-     ["NUMBER", "SPACE", "NULL", "SPACE", "NUMBER", "SPACE", "KEYWORD", ":", "KEYWORD", "=", "NUMBER"]),
     ("mode n u", "data", "data", False, ["TEXT", "SPACE", "PARTICLE", "SPACE", "KEYWORD"]),
-    ("1 0 -1 fill=1 ( 1 2 3)", "cell", "cell", False,
-     ["NUMBER", "SPACE", "NULL", "SPACE", "NUMBER", "SPACE", "KEYWORD", "=", "NUMBER", "SPACE", "(", "SPACE", "NUMBER",
-      "SPACE", "NUMBER", "SPACE", "NUMBER", ")"]),
-    ("sdef", "data", "param_only", False, ["TEXT"]),
-    ("m1 1001.80c 1 8016 1", "data", "material", False,
-     ["TEXT", "NUMBER", "SPACE", "ZAID", "SPACE", "NUMBER", "SPACE", "NUMBER", "SPACE", "NUMBER"]),
 ]
 
 
